@@ -1,10 +1,10 @@
 import AsyncsshModel.Model.Channel
 /-
   What two subclasses of `SSHChannel` add to the data path of `Model/Channel.lean`
-  (asyncssh/channel.py, tree with the repairs b98700f and 6aa4f78).
+  (asyncssh/channel.py, tree with the repairs e7dbee0 and 9f86e20).
 
   * `SSHServerChannel`: the channel requests `shell` / `exec` / `subsystem` start the session
-    (`_start_session`, `_report_response`: `session_started()` then `resume_reading()`).  Since repair b98700f a
+    (`_start_session`, `_report_response`: `session_started()` then `resume_reading()`).  Since repair e7dbee0 a
     request of this kind that arrives after one has succeeded is answered with CHANNEL_FAILURE and touches nothing
     (`_session_started`), so the data path has NO event for it: only the application ends its own pause
     (`Ev.resume`, `Ev.startReading`).  `sessionRequestPreFix` is the code before the repair: the peer's second
@@ -12,7 +12,7 @@ import AsyncsshModel.Model.Channel
 
   * `SSHTunTapChannel` in point-to-point (layer 3) mode: `write` puts a 4-byte address family in front of every
     packet, `_accept_data` strips it before the base class sees the data.  The sender counts the 4 bytes against
-    its send window and so does the window check of `_process_data`; since repair 6aa4f78 `_accept_data` subtracts
+    its send window and so does the window check of `_process_data`; since repair 9f86e20 `_accept_data` subtracts
     them from `_recv_window` as well (`tunAcceptData`), so they come back with the next WINDOW_ADJUST.
     `tunAcceptDataPreFix` is the code before: every packet leaked 4 bytes of window for ever (D4).
     NOT repaired (D5): `write` appends header + packet as ONE entry of the byte-stream send buffer and
@@ -26,7 +26,7 @@ open AsyncsshModel
 
 /-! ### SSHServerChannel: a second shell / exec / subsystem request -/
 
-/-- BEFORE repair b98700f: `_report_response(True)` for a `shell` / `exec` / `subsystem` request — also one that
+/-- BEFORE repair e7dbee0: `_report_response(True)` for a `shell` / `exec` / `subsystem` request — also one that
     arrives on a running session — called `session_started()` and `self.resume_reading()` -/
 def sessionRequestPreFix (c : Chan) : StepRes := step c .resume
 
@@ -41,7 +41,7 @@ def credit (c : Chan) : Int := c.recvWindow - bufBytes c.recvBuf
 def tunAcceptData (c : Chan) (data : Bytes) (dt : DType) : Chan × List Msg × List Out :=
   acceptData { c with recvWindow := c.recvWindow - ((data.take 4).length : Int) } (data.drop 4) dt
 
-/-- the same BEFORE repair 6aa4f78: the stripped bytes are not accounted -/
+/-- the same BEFORE repair 9f86e20: the stripped bytes are not accounted -/
 def tunAcceptDataPreFix (c : Chan) (data : Bytes) (dt : DType) : Chan × List Msg × List Out :=
   acceptData c (data.drop 4) dt
 
